@@ -333,6 +333,9 @@ func c01nRunLiterals(c *Ctx, st *h.Stage, lits []string, infos []c01nInfo, known
 					c01nStat("diff/"+sh.name, key)
 					c.R.Add(h.Finding{Stage: st.Name, Kind: "diff", What: "js.Minify output differs from model (" + sh.name + ")", Input: key, Hex: h.HexS("x=" + in), Config: cfg.name, Impl: impl, Model: model})
 				}
+				if accepted && sh.name == "lit" && len(got) > len(s) {
+					c01nStat("longer/lit", key) // not a violation of C01; reported as a note (not_longer is checked, not proved)
+				}
 				if accepted {
 					observed = append(observed, obs{li, si, ci, in, got})
 					need(in)
@@ -493,7 +496,7 @@ func c01nRandomLit(r *h.RNG) string {
 		if d == "" {
 			d = "0"
 		}
-		if r.Chance(40) {
+		if d != "0" && r.Chance(40) {
 			d = strings.TrimRight(d, "_") + strings.Repeat("0", r.Intn(25))
 		}
 		s = d
